@@ -116,6 +116,14 @@ pub fn cparse(v: &Value) -> Option<Content> {
 }
 
 pub fn replay(c: &Value) -> Result<(), String> {
+    if c["bad_left"].is_string() {
+        let mut acc = Acc::default();
+        string_function_errors(&mut acc);
+        return match acc.violations.first() {
+            Some(v) => Err(v.what.clone()),
+            None => Ok(()),
+        };
+    }
     let a = cparse(&c["a"]).ok_or("a")?;
     let b = cparse(&c["b"]).ok_or("b")?;
     score_all_routes(&a, &b).map(|_| ())
@@ -222,9 +230,41 @@ fn single_edits(x: &[u8], stride: usize) -> Vec<Vec<u8>> {
     out
 }
 
+/// The string function with one / two malformed operands: an error naming the first malformed side,
+/// carrying the same origin as parsing that operand as a long normalized hash.
+fn string_function_errors(acc: &mut Acc) {
+    use ssdeep::{ParseErrorInfo, ParseErrorSide};
+    let good = "3:ABCDEFGH:IJKL";
+    let bads = ["", "3", "4:A:B", "3:A", "3:@:B", "3:A:@", "03:A:B", "4294967296:A:B", "3:ABCD:EFGH:I"];
+    for bad in bads.iter() {
+        let direct = bad.parse::<LongFuzzyHash>();
+        let e = match direct {
+            Err(e) => e,
+            Ok(_) => continue,
+        };
+        for (l, r, side) in [(*bad, good, ParseErrorSide::Left), (good, *bad, ParseErrorSide::Right), (*bad, *bad, ParseErrorSide::Left)] {
+            acc.evaluations += 1;
+            acc.nontrivial += 1;
+            match guarded(|| ssdeep::compare(l, r)) {
+                Ok(Err(pe)) if pe.side() == side && pe.origin() == e.origin() && pe.kind() == e.kind() => acc.bump("error-names-the-side"),
+                other => acc.violation(
+                    format!("string function error path {:?} | {:?}", l, r),
+                    format!("ssdeep::compare({:?}, {:?}) = {:?}, expected an error on the {:?} side with origin {:?}", l, r, other.map(|x| x.map_err(|e| format!("{}", e))), side, e.origin()),
+                    json!({"a": null, "b": null, "bad_left": l, "bad_right": r}),
+                ),
+            }
+        }
+    }
+}
+
 pub fn run(ctx: &Ctx) -> Report {
     let mut rep = Report::new("model_checking");
     let thorough = ctx.tier == Tier::Thorough;
+    {
+        let mut acc = Acc::default();
+        string_function_errors(&mut acc);
+        acc.into_report(&mut rep, "string_function_error_path");
+    }
     // P1: all 31 x 31 block size pairs x content templates
     let tpl = templates();
     let acc = par_shards(31 * 31, |i, acc| {
